@@ -11,6 +11,7 @@ pub mod c08;
 pub mod c09;
 pub mod c10;
 pub mod c11;
+pub mod c12;
 pub mod c13;
 pub mod c15;
 pub mod c16;
@@ -30,6 +31,7 @@ pub fn run<C: Suite>(ctx: &mut Ctx) {
         "C09" => c09::run::<C>(ctx),
         "C10" => c10::run::<C>(ctx),
         "C11" => c11::run::<C>(ctx),
+        "C12" => c12::run::<C>(ctx),
         "C13" => c13::run::<C>(ctx),
         "C15" => c15::run::<C>(ctx),
         "C16" => c16::run::<C>(ctx),
